@@ -30,7 +30,7 @@ LEVELS = ["0", "1", "2", "s"]
 
 
 def plan(tier, seed, avoid):
-    n, per = (128, 4) if tier == "quick" else (4000, 50)
+    n, per = (128, 4) if tier == "quick" else (1600, 25)
     return [{"start": s, "count": per} for s in range(0, n, per)]
 
 
